@@ -273,6 +273,23 @@ def body(prop, args, seed, t0):
             return 2
         print(f"  note: a translator self-check could not run ({type(e).__name__}: {str(e)[:160]}); {len(broken)} obligation(s) are broken, going on")
 
+    # --- T4: translated dictionary-valued definitions (abstract numeric values, exceptions with their class) are run at Rat through
+    # the generated glue OQ/Generated/TranslatedDriverT4.lean and compared with the Python functions / the real methods on real objects
+    # (harness/translated_check_t4.py); a disagreement is a fault of the translator, never a verdict about /repo
+    if prop in _tables._specs() and driver.available():
+        from harness import translated_check_t4 as _tc4
+        if any(p == prop for p, _s in _tc4.t4_specs()) and (build_ok or common.lake_build(["oqdriver"])[0]):
+            n4, bad4, untr4 = _tc4.run(seed, only=prop)
+            tie["translated_t4_vs_python_function"] = n4
+            tie["translated_t4_agreeing_only_up_to_float_rounding"] = len(_tc4.ROUNDED)
+            tie["untranslatable_now"] = list(tie.get("untranslatable_now", [])) + untr4
+            if bad4:
+                for b in bad4[:10]:
+                    print("  translator disagreement (dictionary-valued code):", b)
+                print(f"INTERNAL-ERROR property={prop} (the Python->Lean translation misrenders the code; no verdict)")
+                return 2
+    # --- T4 end
+
     # ---- 3. correspondence + oracle
     if args.replay:
         rp = json.load(open(args.replay))
